@@ -245,6 +245,7 @@ class Shard:
         self.samples = []
         self.excluded = 0            # cases outside the explored space by the property's own exclusions
         self.notes = []
+        self._per_key = {}
 
     def count(self, name, n=1):
         self.counters[name] = self.counters.get(name, 0) + n
@@ -255,7 +256,10 @@ class Shard:
             self.nontrivial.add(h64(case))
 
     def violation(self, key, what, replay):
-        if len(self.violations) < 400:
+        # at most 4 reports per key and shard, so one flooding defect cannot starve the others
+        n = self._per_key.get(key, 0)
+        self._per_key[key] = n + 1
+        if n < 4 and len(self.violations) < 600:
             self.violations.append({"key": key, "what": what, "replay": replay})
         self.count("violations_total")
 
